@@ -40,6 +40,11 @@ def run(ctx):
         "an unlimited ReadString whose announced length exceeds 1 MiB (arbitrary bytes only) is issued "
         "with a limit instead: ReaderX allocates the announced length before reading",
         "ReWrite is exercised with 0 <= pos <= Len() (beyond that the slice expression panics by design)",
+        "returned strings / byte slices (ReadString, ReadLimitString, ReadN, Read(p); BufferX and ReaderX) are "
+        "kept as returned and rendered when the history is over, for every other history (the others render "
+        "at once so that crash evidence stays flush-per-event); ZReadN results are documented as aliasing "
+        "and are copied at once",
+        "a reset event of a reused buffer carries the Len() it really has after Reset() / draining (spec: 0)",
     ]
     return ctx.finish(
         rule="plans = TLC simulation of TypedStream.tla (13 scalar types x 4 boundary values, strings, raw, "
@@ -47,7 +52,11 @@ def run(ctx):
              "all 16 writers with boundary / random values, rewrites (exact u32 / raw replacement, arbitrary "
              "windows, overhang), read back on the written buffer itself and on copies truncated at every "
              "byte (sampled above 36 bytes), stream readers over sources delivering 1,2,3,4,5,7,8,9,16 "
-             "bytes, everything, or irregular pieces; arbitrary / damaged bytes to every reader",
+             "bytes, everything, or irregular pieces; one BufferX lives through 1..3 such write / read-back "
+             "cycles (emptied by Reset() or by draining to io.EOF; small capacities force data moves), plans "
+             "run three to a buffer; arbitrary / damaged bytes to every reader",
         explanation="every typed read must return the written token and the remaining length the items "
                     "imply, a truncated or refused item must give no value from any reader, rewrite images "
-                    "must differ exactly on the addressed bytes, and every ReaderX must answer as BufferX")
+                    "must differ exactly on the addressed bytes, every ReaderX must answer as BufferX, a value a "
+                    "read handed out must still be that value after the buffer was reused, and a []byte passed "
+                    "to Write / ReWrite must come back unchanged (inmut)")
